@@ -284,6 +284,10 @@ static void set_chaos(struct scen *s)
 		vp_point_set(URCU_VP_GP_PRE_SLEEP, p / 2, VP_D_HEAVY);
 	if (vp_rand_n(&s->rng, 3) == 0)
 		vp_point_set(URCU_VP_WFCQ_SPLICE_MID, p / 2, VP_D_HEAVY);
+	/* the hand-over of inherited callbacks to the child's new default helper happens long enough after that
+	 * helper was created for it to have gone to sleep: the hand-over must wake it */
+	if (vp_rand_n(&s->rng, 4))
+		vp_point_set(URCU_VP_CRCU_FREE_STOPPED, 1.0, VP_D_SLEEP);
 	/* a re-created worker that inherited futex == -1 spins (known, not flagged): let it nap */
 	if (vp_rand_n(&s->rng, 2))
 		vp_point_set(URCU_VP_WQ_PRE_SLEEP, 1.0, VP_D_SLEEP);
